@@ -72,6 +72,31 @@ in a field, a helper in another package, renamed anchor functions) is reported a
 |---|---|---|
 %s
 '''%'\n'.join(rrows)
+# round 2 of the refactoring trials (other kinds of clean-up); verdict notes in refactors2/<id>/verdict.txt
+r2rows=[]
+for d in sorted(glob.glob('/verif/refactors2/*/')):
+    pid=os.path.basename(d.rstrip('/'))
+    m=json.load(open(d+'meta.json'))
+    vf=d+'verdict.txt'
+    r2rows.append('| %s | %s | %s |'%(pid,short(m.get('summary',''),230),short(open(vf).read(),260) if os.path.exists(vf) else 'OK'))
+s13+='''
+### Round 2 (other kinds of clean-up)
+
+A second set of twenty fresh sub-agents was asked for kinds of behaviour-preserving change the first round had not
+used: closures turned into named methods or functions (method values, method expressions), functions moved to another
+file of the package, renamed unexported functions / methods / fields / receivers / types, table-driven lookups instead
+of switch or || chains, index loops <-> range loops, keyed <-> positional literals, splitting a function into
+sequential steps, hoisting literals into package-level tables. Patches under `/verif/refactors2/<id>/`
+(`REFDIR=refactors2 tools/rerefactor.sh <id>`). Ten were OK at once; ten tripped a translator
+(`VIOLATION ... no-failing-input-found`, never a fabricated failing input) and the translators were generalised again
+(declarations are looked up in the package rather than in a file, calls are followed through renamed unexported
+callees starting from stable exported entry points, method values and method expressions are resolved, table
+look-ups are evaluated) - verdict column.
+
+| id | refactoring | verdict |
+|---|---|---|
+%s
+'''%'\n'.join(r2rows)
 s=open('/verif/DESIGN.md').read()
 i=s.index('## 12. Seeded changes and what catches them')
 open('/verif/DESIGN.md','w').write(s[:i]+s12+s13)
